@@ -177,6 +177,7 @@ fn setup_of(p: &P) -> Setup {
         policy: Policy { renew: if p.renewable { RenewMode::Next } else { RenewMode::Never }, mask: u64::MAX, var_ids: false },
         hcfg: HandlerCfg::default_cfg(),
         rng_seed: p.rng_seed,
+        acc_twin: p.rng_seed % 2 == 0,
     }
 }
 
